@@ -34,6 +34,7 @@ def run(ctx):
         dlmain.check_open_flags(ck, prog, config, 'C11-a')
         c09.scan_reads(ck, prog, config, 'C11-b', 'C11-b')
         c09.scan_loop_exits(ck, prog, config, 'C11-d')
+        c09.verdict_store(ck, prog, config, 'C11-d')
         n = dlrules.valid_inventory(ck, prog, config, 'C11-b')
         ck.min_instances('stores to zckChunk.valid', n, 10)
         dlrules.arming_guard(ck, prog, config, 'C11-b')
